@@ -1395,7 +1395,12 @@ mod handle_cache_helpers {
                             &future,
                             || {},
                         )
-                        .is_some();
+                        .is_some()
+                            // A response which depends on the query can only join an item that
+                            // is keyed with the query: an item keyed by the path alone is
+                            // served whatever the query is.
+                            && (!server_cache.query_matters()
+                                || matches!(&key, UriKey::PathQuery(_)));
                         let variant_lifetime = comprash::server_cache_lifetime(
                             compressed_response.get_identity().headers(),
                         );
